@@ -14,8 +14,16 @@ from .tables import op_table
 
 
 class World:
-    def __init__(self, model: Model):
+    def __init__(self, model: Model, real_exprs: bool = False):
+        """real_exprs: expressions constructed inside the analysed code (Int(0), Div(a, b), TernaryExpr(...)) are
+        built from the repository's own classes and factories and lowered by their own __teal__"""
         self.model = model
+        self.objs = None
+        if real_exprs:
+            from .objworld import ObjWorld
+
+            mods = [n for n in model.modules if n.startswith("pyteal.ast.") and not n.endswith("_test") and ".abi." not in n] + ["pyteal.types", "pyteal.errors"]
+            self.objs = ObjWorld(model, mods, where="lower-world")
         self.optab = op_table(model)
         self.OpS = Sym("Op", attrs={mem: Sym(f"Op.{mem}", attrs={"min_version": row["v"], "name": mem, "teal": row["teal"]}) for mem, row in self.optab.items()})
         self.TT = Sym("TealType", attrs={k: f"TealType.{k}" for k in ("none", "uint64", "bytes", "anytype")})
@@ -79,6 +87,23 @@ class World:
                     return extra(e, me)
                 except Unknown:
                     pass
+            if self.objs is not None:
+                try:
+                    return self.objs.oracle()(e, me)
+                except Unknown:
+                    pass
+                if isinstance(e, ast.Call) and isinstance(e.func, ast.Name):
+                    nm = e.func.id
+                    c = self.model.try_class(nm)
+                    if c is not None and any(k.name == "Expr" for k in self.model.mro(c)):
+                        args, kwargs = me._args(e)
+                        self.objs.me = me
+                        return self.objs.construct(nm, args, kwargs)
+                    fn = self.objs.helpers.get(nm)
+                    if fn is not None:
+                        args, kwargs = me._args(e)
+                        return me.call_def(fn, args, kwargs, {})
+                raise Unknown()
             if isinstance(e, ast.Call) and u(e.func) == "Int" and len(e.args) == 1 and not e.keywords:
                 v = me.ev(e.args[0])
                 if isinstance(v, int) and not isinstance(v, bool):
@@ -93,6 +118,16 @@ class World:
             raise Unknown()
 
         return o
+
+    def construct(self, cname: str, args: list, kwargs: Optional[dict] = None):
+        """an instance of the repository's class `cname` built by its own constructor (needs real_exprs)"""
+        if self.objs is None:
+            raise AnalysisError("World.construct needs real_exprs=True")
+        me = MiniEval(self.oracle(), f"construct {cname}", permissive=True, resolver=self.objs.resolver)
+        me.isinstance_hook = lambda v, cn: ((cn.split(".")[-1] in v.attrs["$isa"]) if isinstance(v, Sym) and "$isa" in v.attrs else None)
+        self.me = me
+        self.objs.me = me
+        return self.objs.construct(cname, list(args), dict(kwargs or {}))
 
     def int_literal(self, v: int):
         """an Int(v) child: lowers to `int v`, carries .value, is an instance of Int"""
@@ -127,8 +162,11 @@ class World:
         def setup(me):
             holder["me"] = me
             self.me = me
+            if self.objs is not None:
+                self.objs.me = me
+                me.isinstance_hook = lambda v, cname: ((cname.split(".")[-1] in v.attrs["$isa"]) if isinstance(v, Sym) and "$isa" in v.attrs else None)
 
-        val, me = run_function(f.node, {f.params()[0]: selfs, **({f.params()[1]: options} if len(f.params()) > 1 else {})}, self.oracle(extra), f.fq, permissive=True, setup=setup)
+        val, me = run_function(f.node, {f.params()[0]: selfs, **({f.params()[1]: options} if len(f.params()) > 1 else {})}, self.oracle(extra), f.fq, permissive=True, setup=setup, resolver=(self.objs.resolver if self.objs is not None else None))
         return val, me, f
 
     # ------------------------------------------------------------------ reading the result
